@@ -49,7 +49,7 @@ def handle (req : Json) : Except String Json := do
   match op with
   | "cli.main" => do
     let v ← match (← getStr req "variant") with
-      | "asis" => pure Variant.asis | "fixed" => pure Variant.fixed
+      | "old" => pure Variant.old | "fixed" => pure Variant.fixed
       | o => throw s!"bad variant {o}"
     let inv ← parseInv req
     let spec := usageCount inv + parseErrorFiles inv + failingModels inv
